@@ -25,3 +25,9 @@ def lemmas():
     from contracts import syntactic
 
     return syntactic.no_except_in_wrappers()
+
+
+def bounded(tier, seed, pr):
+    from pyvc.boundedrun import run_bounded
+
+    return [run_bounded(pr, "b_api.py", "native_scenarios_failure", args={"groups": ['failure']})]
